@@ -299,6 +299,9 @@ func encTTHFrame(r *rand.Rand) []byte {
 }
 
 func monC03(c *drv.Ctx) {
+	if fuzzReplayStage(c) {
+		return
+	}
 	allocCap := uint32(c.Pick(1<<12, 1<<16))
 	someTypes := func(cs *drv.Case) []byte {
 		return []byte{ref.STRUCT, ref.MAP, ref.LIST, ref.STRING, byte(cs.R.Intn(256)), 0x80 | byte(cs.R.Intn(128))}
